@@ -109,7 +109,9 @@ func IsCodeField(message proto.Message) bool {
 	if field != nil {
 		allowedKinds := []protoreflect.Kind{protoreflect.EnumKind, protoreflect.StringKind}
 		isValidFieldType := slices.Includes(allowedKinds, field.Kind())
-		return strings.HasSuffix(name, "Code") && isValidFieldType
+		// Value-set bound codes are generated as "...Code" messages, or
+		// "...CodeType" when the element itself is called code.
+		return (strings.HasSuffix(name, "Code") || strings.HasSuffix(name, "CodeType")) && isValidFieldType
 	}
 	return false
 }
